@@ -953,6 +953,21 @@ def plan_C07(tier, rng):
                 cs.write(ep, F["name"], f, bits, c, wo=True, opts=optsets[0], tag=tag, want_back=True)
                 if i % 2 == 0:
                     cs.write(ep, F["name"], f, bits, c, wo=True, opts=optsets[1 + (i // 2) % 2], want_back=True)
+                if i % 3 == 0:
+                    # digit-count options: what is written must still be a numeral of the format (every byte written by the
+                    # writer: a count that covers stale buffer bytes shows up as a malformed output)
+                    mx = rng.choice([1, 2, 3, 5, 8, 11, 14, 20])
+                    o = dict(optsets[(i // 3) % 3], max=mx, min=rng.choice([0, 0, 1, mx]), round=rng.choice(["round", "truncate"]))
+                    cs.write(ep, F["name"], f, bits, c, wo=True, opts=o, tag="digit-options-wellformed")
+            # small values in positional notation with many digits allowed
+            for _ in range(6 if quick else 60):
+                i += 1
+                x = rng.uniform(1.0, float(r)) * float(r) ** (-rng.randrange(2, 6))
+                bits = gens.pyfloat_bits(F, x)
+                ep = cs.new_ep()
+                for mx in (rng.randrange(2, 8), rng.randrange(8, 16)):
+                    cs.write(ep, F["name"], f, bits, [cfgs[i % len(cfgs)]], wo=True, opts=wf(exp=ec, max=mx, min=rng.choice([0, 3])),
+                             tag="digit-options-wellformed")
 
     def phase2(events, cs2):
         add_back(events, cs2)
